@@ -65,6 +65,9 @@ func c04Run(c c04Case) (fail *vlib.Failure, rs c04Stats) {
 		if pc := vlib.Catch(func() { err = p.Init(f) }); pc.Panicked || err != nil {
 			return vlib.Failf("initialising address space %d failed: err=%v %v", i, err, pc), rs
 		}
+		if why := m.freshRoot(f); why != "" {
+			return vlib.Failf("initialising address space %d (PageDirectoryTable.Init on a frame with old contents): %s", i, why), rs
+		}
 		roots = append(roots, f)
 		pdts = append(pdts, p)
 	}
